@@ -84,7 +84,11 @@ def check(ctx):
         'in-place arm returns None/out and the out-of-place arm returns a '
         'value on every path (R4); Operator.__call__ performs the domain, '
         'range and return-identity checks in the required order (R6) and '
-        'the default bridges assign into / allocate from the range (R7).',
+        'the default bridges assign into / allocate from the range (R7).  '
+        'R10: both arms of ProductSpaceOperator._call compute the block '
+        'matrix-vector product for every storage order of the blocks '
+        '(row-major, column-major as built by adjoint, unsorted, empty '
+        'rows), evaluated in the free vector-space algebra.',
         ['CPython ast', 'effect table of the element/array API '
          '(sa/effects.py)', 'summaries of finite_diff, resize_array, '
          'point_collocation, pyfftw_call, dft_pre/postprocess_data',
